@@ -224,15 +224,20 @@ def linguaPrep (code : Str) : Str :=
     source ++ ['p', 'a', 's', 's']
   else source
 
-/-- `self.python_extractor(self.filename, self.options, code, code_lineno - 1)` reports `firstline + lineno`;
-    with translator strings the comment becomes `" ".join(translator_strings + [msg.comment])`.
+/-- `skipped = raw[: len(raw) - len(raw.lstrip())].count("\n")` for `raw = "\n" + code`: the lines `strip()`
+    removes in front of the code (at least the newline `extract_nodes` adds) -/
+def linguaSkipped (code : Str) : Nat := countNL (('\n' :: code).takeWhile isPySpace)
+
+/-- `self.python_extractor(self.filename, self.options, code, code_lineno + skipped - 1)` reports
+    `firstline + lineno`; with translator strings the comment becomes
+    `" ".join(translator_strings + [msg.comment])`.
     A lingua `Message` has one comment string: `Hit.comments`/`Msg.comments` are singletons here. -/
-def linguaMsg (codeLineno : Int) (ts : List Str) (h : Hit) : Msg :=
-  ⟨(codeLineno - 1) + (h.line : Int), h.func, h.payload,
+def linguaMsg (codeLineno : Int) (skipped : Nat) (ts : List Str) (h : Hit) : Msg :=
+  ⟨(codeLineno + (skipped : Int) - 1) + (h.line : Int), h.func, h.payload,
    if ts.isEmpty then h.comments else [joinWith [' '] (ts ++ h.comments)]⟩
 
 def linguaProc (finder : Finder) : Proc Msg := fun code codeLineno ts =>
-  (finder (linguaPrep code)).map (linguaMsg codeLineno ts)
+  (finder (linguaPrep code)).map (linguaMsg codeLineno (linguaSkipped code) ts)
 
 def extractLingua (finder : Finder) (cfgTags : Str) (nodes : List Node) : List Msg :=
   extract (configTags cfgTags) (linguaProc finder) nodes
